@@ -55,6 +55,8 @@ pub struct Tcp2Cfg {
     /// DeviceCapabilities::max_burst_size of both devices (the stack then clamps the window it
     /// advertises to that many segments)
     pub burst: Option<usize>,
+    /// the alphabet includes `BlockedTick` (transient device back-pressure at a timer instant)
+    pub allow_blocked_tick: bool,
 }
 
 impl Tcp2Cfg {
@@ -82,6 +84,7 @@ impl Tcp2Cfg {
             prefix: 0,
             simul_open: false,
             burst: None,
+            allow_blocked_tick: false,
         }
     }
 }
@@ -107,10 +110,16 @@ pub enum Ev {
     Drop { to: usize },
     Dup { to: usize },
     Corrupt { to: usize },
+    /// like Corrupt, but the flipped bit is in the LAST octet of the frame
+    CorruptTail { to: usize },
     /// advance the clock to the earliest poll_at deadline
     Tick,
     Stall { side: usize },
     Unstall { side: usize },
+    /// like Tick, but `side`'s device refuses every frame while the timers of that instant fire
+    /// (transmit() returns None); the device accepts again afterwards and nothing is polled
+    /// until the next event - whatever could not be sent is still pending then
+    BlockedTick { side: usize },
 }
 
 pub struct Frame {
@@ -691,6 +700,7 @@ impl Harness for Tcp2 {
                 v.push((Ev::Dup { to }, 1));
                 if self.cfg.allow_corrupt {
                     v.push((Ev::Corrupt { to }, 1));
+                    v.push((Ev::CorruptTail { to }, 1));
                 }
                 for idx in 1..self.net[to].len() {
                     v.push((Ev::Deliver { to, idx }, 1));
@@ -700,6 +710,11 @@ impl Harness for Tcp2 {
         let in_flight = h0.is_some() || h1.is_some();
         if deadline.is_some() && (in_flight || any_stalled.is_some()) {
             v.push((Ev::Tick, 1));
+        }
+        if self.cfg.allow_blocked_tick && deadline.is_some() {
+            for side in 0..2 {
+                v.push((Ev::BlockedTick { side }, 1));
+            }
         }
         if self.cfg.allow_stall {
             for side in 0..2 {
@@ -743,6 +758,14 @@ impl Harness for Tcp2 {
                 fr.corrupted = true;
                 self.deliver(to, &fr);
             }
+            Ev::CorruptTail { to } => {
+                let mut fr = self.net[to].remove(0);
+                if let Some(b) = fr.bytes.last_mut() {
+                    *b ^= 0x01;
+                }
+                fr.corrupted = true;
+                self.deliver(to, &fr);
+            }
             Ev::Tick => {
                 // A reader only stays stalled across a sleep while the peer may still send
                 // (that is what produces zero windows). An application that has been told
@@ -763,6 +786,45 @@ impl Harness for Tcp2 {
                 if let Some(d) = self.cached_deadline {
                     self.now = d;
                 }
+            }
+            Ev::BlockedTick { side } => {
+                if let Some(d) = self.cached_deadline {
+                    if d > self.now {
+                        self.now = d;
+                    }
+                }
+                self.ends[side].dev.tx_budget = Some(0);
+                for s2 in 0..2 {
+                    self.app_step(s2);
+                }
+                // one poll of the blocked side at the timer instant (its timers fire, nothing
+                // leaves), the other side runs as usual
+                let n = self.poll_side(side);
+                if n > 0 {
+                    self.pending.push(Viol::new("MACHINERY/blocked-device-transmitted", format!("{} frames", n)));
+                }
+                let other = 1 - side;
+                let mut polls = 0;
+                while let Some(t) = self.poll_at(other) {
+                    if t > self.now || polls >= 8 {
+                        break;
+                    }
+                    self.poll_side(other);
+                    polls += 1;
+                }
+                self.ends[side].dev.tx_budget = None;
+                // what could not be sent is due "now": the next Tick polls at this same instant
+                let mut d = self.earliest_deadline();
+                for s2 in 0..2 {
+                    if let Some(t) = self.poll_at(s2) {
+                        if t <= self.now {
+                            d = Some(self.now);
+                        }
+                    }
+                }
+                self.cached_deadline = d;
+                out.append(&mut self.pending);
+                return;
             }
             Ev::Stall { side } => self.ends[side].stalled = true,
             Ev::Unstall { side } => self.ends[side].stalled = false,
@@ -874,6 +936,8 @@ pub fn configs(tier: Tier) -> Vec<(Tcp2Cfg, u32)> {
     let wscale = Tcp2Cfg { rx: [131072, 131072], tx: [4096, 4096], mtu: 1500, len: [3000, 0], isn: Some([0xffff_f000, 0x7fff_f800]), ..b("wscale-128k") };
     let eager = Tcp2Cfg { b_waits_fin: false, len: [30, 30], ..b("simultaneous-close") };
     let corrupt = Tcp2Cfg { allow_corrupt: true, len: [50, 0], ..b("corrupt") };
+    // segment lengths of every residue mod 4 (checksum tail handling), both directions
+    let corrupt2 = Tcp2Cfg { allow_corrupt: true, len: [47, 13], chunk: 9, nagle: false, ..b("corrupt-odd-lengths") };
     let stallcfg = Tcp2Cfg { rx: [64, 32], tx: [256, 64], len: [100, 0], chunk: 1000, ..b("rx32-len100") };
     // streams longer than the transmit buffer: the tx ring wraps while data is in flight
     let wrap24 = Tcp2Cfg { rx: [64, 64], tx: [24, 64], len: [100, 0], ..b("txwrap24") };
@@ -887,6 +951,9 @@ pub fn configs(tier: Tier) -> Vec<(Tcp2Cfg, u32)> {
     let simul = Tcp2Cfg { simul_open: true, len: [60, 20], ..b("simultaneous-open") };
     // burst-limited devices: the advertised window is clamped while the real one is larger
     let burst = Tcp2Cfg { burst: Some(2), rx: [2048, 2048], tx: [2048, 2048], mtu: 140, len: [400, 100], ..b("burst2-rx2048") };
+    // transient device back-pressure exactly when a timer fires
+    let blocked = Tcp2Cfg { allow_blocked_tick: true, len: [60, 20], ..b("blocked-at-timer") };
+    let blocked_eth = Tcp2Cfg { allow_blocked_tick: true, eth: true, len: [60, 20], allow_stall: false, ..b("blocked-at-timer-eth") };
     let reuse2 = Tcp2Cfg { prefix: 2, len: [60, 20], ..b("reuse-after-close") };
     // sweep of stream lengths against a 24-byte transmit ring and a 10-byte peer window: for
     // some lengths the final unsent chunk straddles the end of the ring storage at close()
@@ -902,6 +969,8 @@ pub fn configs(tier: Tier) -> Vec<(Tcp2Cfg, u32)> {
             v.push((reuse2, 2));
             v.push((simul, 2));
             v.push((burst, 2));
+            v.push((blocked, 2));
+            v.push((blocked_eth, 2));
             v.push((eth4, 2));
             v.push((eth6s, 2));
             v.push((small, 4));
@@ -915,6 +984,7 @@ pub fn configs(tier: Tier) -> Vec<(Tcp2Cfg, u32)> {
             v.push((wscale, 2));
             v.push((eager, 3));
             v.push((corrupt, 2));
+            v.push((corrupt2, 2));
             v.push((stallcfg, 3));
             v.push((tiny, 3));
             v.push((wrap24, 2));
@@ -926,6 +996,8 @@ pub fn configs(tier: Tier) -> Vec<(Tcp2Cfg, u32)> {
             v.push((reuse2, 3));
             v.push((simul, 3));
             v.push((burst, 3));
+            v.push((blocked, 3));
+            v.push((blocked_eth, 3));
             v.push((eth4, 3));
             v.push((eth6s, 3));
             v.push((small, 5));
@@ -939,6 +1011,7 @@ pub fn configs(tier: Tier) -> Vec<(Tcp2Cfg, u32)> {
             v.push((wscale, 3));
             v.push((eager, 4));
             v.push((corrupt, 3));
+            v.push((corrupt2, 3));
             v.push((stallcfg, 4));
             v.push((tiny, 4));
             v.push((wrap24, 3));
